@@ -144,7 +144,7 @@ pub fn sample_in(lo: f32, hi: f32, t: u16) -> f32 {
     if v.is_nan() { lo } else { v.clamp(lo, hi) }
 }
 
-fn samples_strategy(n: std::ops::RangeInclusive<usize>) -> BoxedStrategy<Vec<Vec<u16>>> {
+pub fn samples_strategy(n: std::ops::RangeInclusive<usize>) -> BoxedStrategy<Vec<Vec<u16>>> {
     let t = prop_oneof![
         2 => Just(0u16),
         2 => Just(1000u16),
@@ -175,6 +175,20 @@ fn sat(i: Interval, p: f32) -> Sat {
         Sat::Slack
     } else {
         Sat::No
+    }
+}
+
+/// The operand's interval is a zero with one bit pattern and the point value
+/// is the zero of the other sign (finding F6)
+fn other_zero(i: Option<Interval>, p: f32) -> bool {
+    match i {
+        Some(i) => {
+            p == 0.0
+                && i.lower() == 0.0
+                && i.lower().to_bits() == i.upper().to_bits()
+                && i.lower().to_bits() != p.to_bits()
+        }
+        None => false,
     }
 }
 
@@ -231,11 +245,13 @@ fn check_backend(
                 }
                 // F6: rand / mix hash the sign of a zero, which a [0, 0]
                 // interval cannot represent
-                Op::Unary(UnaryOpcode::Rand, a) if vals[&a] == 0.0 => f6 = true,
-                Op::Binary(BinaryOpcode::Mix, l, r)
-                    if vals[&l] == 0.0 || vals[&r] == 0.0 =>
-                {
-                    f6 = true
+                // (recognised only when the operand's OWN interval is a zero
+                // with one bit pattern at both ends and the point value is the
+                // zero of the other sign; an operand interval [-0, +0] has two
+                // bit patterns and must not be hashed as one value)
+                Op::Unary(UnaryOpcode::Rand, a) => f6 = other_zero(iv_of(a), vals[&a]),
+                Op::Binary(BinaryOpcode::Mix, l, r) => {
+                    f6 = other_zero(iv_of(l), vals[&l]) || other_zero(iv_of(r), vals[&r])
                 }
                 _ => {}
             }
